@@ -1,6 +1,7 @@
 (* C02/Proofs.v — lemmas and proofs. *)
 From Coq Require Import String List Bool Arith Lia Ascii.
 From Verif Require Import Base.Str C02.Model C02.Spec.
+From VerifGen Require Import C02Tables.
 Import ListNotations.
 Open Scope string_scope.
 Open Scope list_scope.
@@ -1349,6 +1350,7 @@ Section Main.
                   (fun a Ha => proj1 (decrypted_In dd a Dec0 Ha)) (Os3 dd eq_refl) E2) as (Q1 & Q2 & Q3 & Q4).
       destruct (want_either c && negb resp_signed && negb (all1 && all2)) eqn:Eeither; [discriminate|].
       destruct (many ASSERTION doc ++ decrypted dd ++ many ASSERTION dd) as [|x0 xs] eqn:Enon; [discriminate|].
+      destruct (one_fed K resp_signed (decrypted dd ++ many ASSERTION dd)) eqn:Eone; [|discriminate]. cbn [negb] in H.
       inversion H; subst rep ds. clear H.
       assert (Hall : forall a, In a (many ASSERTION doc ++ decrypted dd) -> asserted c (cov_of doc (Some dd) (d0 ++ d1 ++ d2)) a).
       { intros a Ha. destruct resp_signed eqn:Ers.
@@ -1395,6 +1397,7 @@ Section Main.
     - (* ---------------- no ciphertext *)
       destruct (want_either c && negb resp_signed && negb all1) eqn:Eeither; [discriminate|].
       destruct (many ASSERTION doc) as [|x0 xs] eqn:Enon; [discriminate|]. rewrite <- Enon in *.
+      destruct (one_fed K resp_signed (many ASSERTION doc)) eqn:Eone; [|discriminate]. cbn [negb] in H.
       inversion H; subst rep ds. clear H.
       assert (Hall : forall a, In a (many ASSERTION doc) -> asserted c (cov_of doc ddoc (d0 ++ d1)) a).
       { intros a Ha. destruct resp_signed eqn:Ers.
@@ -1430,6 +1433,12 @@ End Main.
    child OR exactly one EncryptedAssertion child: that is finding C02-F4 (mix_guard is the excluded class). *)
 Definition mix_guard (doc : tree) (ddoc : option tree) : Prop :=
   signed doc \/ exists a, reported_assertions doc ddoc = [a].
+
+(* assumed about decryption + re-serialisation, for the repaired count test (it counts self.assertions = the decrypted
+   assertions and the plain ones of the text AFTER the round trip): the round trip loses no plain assertion.
+   Checked on every case of the correspondence (Corr.holds). *)
+Definition dec_count (doc : tree) (ddoc : option tree) : Prop :=
+  forall dd, ddoc = Some dd -> length (many ASSERTION doc) <= length (many ASSERTION dd).
 
 Lemma spec_one_b_iff c cv rep : spec_one_b c cv rep = true <-> spec_one c cv rep.
 Proof.
@@ -1507,7 +1516,7 @@ Section Single.
     (k_issuer K = true \/ issuer_guard doc ddoc) ->
     (k_lax K = true \/ engine_guard Eg doc ddoc) ->
     oracle_sane o doc ddoc -> dec_sound doc ddoc ->
-    mix_guard doc ddoc ->
+    (k_one K = true /\ dec_count doc ddoc) \/ mix_guard doc ddoc ->
     accept dig_ok sig_ok Eg K c o doc ddoc = Some (rep, ds) ->
     spec_one c (cov_of doc ddoc ds) rep.
   Proof.
@@ -1560,6 +1569,7 @@ Section Single.
                   (fun a Ha => proj1 (decrypted_In dd a Dec0 Ha)) (Os3 dd eq_refl) E2) as (Q1 & Q2 & Q3 & Q4).
       destruct (want_either c && negb resp_signed && negb (all1 && all2)) eqn:Eeither; [discriminate|].
       destruct (many ASSERTION doc ++ decrypted dd ++ many ASSERTION dd) as [|x0 xs] eqn:Enon; [discriminate|].
+      destruct (one_fed K resp_signed (decrypted dd ++ many ASSERTION dd)) eqn:Eone; [|discriminate]. cbn [negb] in H.
       inversion H; subst rep ds. clear H.
       destruct resp_signed eqn:Ers.
       + destruct (Hroot eq_refl) as (j & s & k & Hn & Hs & Hcov & Hby & _).
@@ -1572,7 +1582,19 @@ Section Single.
              destruct (Dec1 a Ha) as (k0 & Hk0 & Hne & Hsub). now exists k0.
         * intros a Ha. apply in_app_or in Ha as [Ha|Ha]; apply in_or_app; [now right | left; now apply Dec2].
       + destruct (Hd0 eq_refl) as (-> & Hwr & Hns).
-        destruct Hmix as [Hsd|(a & Hone)]; [contradiction|].
+        assert (Hmix' : exists a, reported_assertions doc (Some dd) = [a]).
+        { destruct Hmix as [[Hk Hcnt]|[Hsd|Hx]]; [|contradiction|exact Hx].
+          unfold reported_assertions. rewrite Efe.
+          unfold one_fed in Eone. rewrite Hk in Eone. cbn [negb orb] in Eone. apply Nat.leb_le in Eone.
+          rewrite app_length in Eone. specialize (Hcnt dd eq_refl).
+          destruct (many ASSERTION doc ++ decrypted dd) as [|a [|b r]] eqn:El.
+          - exfalso. apply app_eq_nil in El as [El1 El2]. rewrite El1, El2 in Enon. cbn [app] in Enon.
+            assert (Hin : In x0 (many ASSERTION dd)) by (rewrite Enon; now left).
+            apply Dec2 in Hin. rewrite El1 in Hin. contradiction.
+          - now exists a.
+          - exfalso. assert (Hl : length (many ASSERTION doc ++ decrypted dd) = S (S (length r))) by (now rewrite El).
+            rewrite app_length in Hl. lia. }
+        destruct Hmix' as (a & Hone).
         assert (Hone' := Hone). unfold reported_assertions in Hone'. rewrite Efe in Hone'.
         assert (Hsig : all1 && all2 = true \/ want_assert c = true).
         { destruct Hreq as [Hr|[Hr|Hr]]; [congruence | now right | left].
@@ -1608,6 +1630,7 @@ Section Single.
     - (* ---------------- no ciphertext *)
       destruct (want_either c && negb resp_signed && negb all1) eqn:Eeither; [discriminate|].
       destruct (many ASSERTION doc) as [|x0 xs] eqn:Enon; [discriminate|]. rewrite <- Enon in *.
+      destruct (one_fed K resp_signed (many ASSERTION doc)) eqn:Eone; [|discriminate]. cbn [negb] in H.
       inversion H; subst rep ds. clear H.
       destruct resp_signed eqn:Ers.
       + destruct (Hroot eq_refl) as (j & s & k & Hn & Hs & Hcov & Hby & _).
@@ -1616,7 +1639,12 @@ Section Single.
         intros a Ha. apply many_In in Ha as [Hk Ht]. split; [assumption|]. exists a.
         repeat split; [assumption | rewrite Ht; discriminate | apply subtrees_self].
       + destruct (Hd0 eq_refl) as (-> & Hwr & Hns).
-        destruct Hmix as [Hsd|(a & Hone)]; [contradiction|].
+        assert (Hmix' : exists a, reported_assertions doc ddoc = [a]).
+        { destruct Hmix as [[Hk Hcnt]|[Hsd|Hx]]; [|contradiction|exact Hx].
+          unfold reported_assertions. rewrite Efe, app_nil_r.
+          unfold one_fed in Eone. rewrite Hk in Eone. cbn [negb orb] in Eone. apply Nat.leb_le in Eone.
+          destruct (many ASSERTION doc) as [|a [|b r]]; [discriminate | now exists a | cbn [length] in Eone; lia]. }
+        destruct Hmix' as (a & Hone).
         assert (Hone' := Hone). unfold reported_assertions in Hone'. rewrite Efe, app_nil_r in Hone'.
         assert (S1 : all1 = true \/ want_assert c = true).
         { destruct Hreq as [Hr|[Hr|Hr]]; [congruence | now right | left].
@@ -1643,7 +1671,7 @@ Section Single.
   Proof.
     intros HK Hreq Hg Hi He Ho Hd Hnoenc Hfe H.
     eapply accept_single; eauto.
-    right. apply accept_count in H. unfold count_ok in H. rewrite Hnoenc in H. cbn [length Nat.eqb orb] in H.
+    right. right. apply accept_count in H. unfold count_ok in H. rewrite Hnoenc in H. cbn [length Nat.eqb orb] in H.
     rewrite orb_false_r in H. apply Nat.eqb_eq in H.
     unfold reported_assertions. rewrite Hfe, app_nil_r.
     destruct (many ASSERTION doc) as [|a [|b r]]; try discriminate. now exists a.
@@ -1793,7 +1821,11 @@ Module Ex.
     response IDP [A2_signed; el ENCASSERTION [Node ENCDATA [("n", "$e")] "" [B2_signed]]].
   Definition ddoc_mix_enc : tree := response IDP [A2_signed; el ENCASSERTION [B2_signed]].
   Definition ok3 : oracle := {| content_ok := true; schema_root := true; schema_as := [true; true]; schema_enc := [true] |}.
-  Definition run2 (c : cfg) (d : tree) (dd : option tree) := accept dig_ex2 sig_ex2 xmlsec1 as_coded c ok3 d dd.
+  Definition run2k (K : knobs) (c : cfg) (d : tree) (dd : option tree) := accept dig_ex2 sig_ex2 xmlsec1 K c ok3 d dd.
+  (* the code before 6a3bb24f *)
+  Definition run2 := run2k knobs_v2.
+  Definition run2_now := run2k as_coded.
+  Definition doc_one : tree := response IDP [A2_signed].
   Definition mixed (c : cfg) (d : tree) (dd : option tree) : option (bool * bool * option string * option string) :=
     match run2 c d dd with
     | Some (rep, ds) => Some (spec_b c (cov_of d dd ds) rep, spec_one_b c (cov_of d dd ds) rep,
@@ -1864,9 +1896,9 @@ Proof. vm_compute. reflexivity. Qed.
 
 (* necessity of three conjuncts of the defence: with the conjunct switched off (everything else as coded)
    a wrapping document is accepted with the attacker's identity; the code as it is rejects it *)
-Definition no_uri : knobs := {| k_uri := false; k_uniq := true; k_nodeid := true; k_onesig := true; k_issuer := true; k_iter := true; k_exact := true; k_lax := true |}.
-Definition no_uniq : knobs := {| k_uri := true; k_uniq := false; k_nodeid := true; k_onesig := true; k_issuer := true; k_iter := true; k_exact := true; k_lax := true |}.
-Definition no_nodeid : knobs := {| k_uri := true; k_uniq := true; k_nodeid := false; k_onesig := true; k_issuer := true; k_iter := true; k_exact := true; k_lax := true |}.
+Definition no_uri : knobs := {| k_uri := false; k_uniq := true; k_nodeid := true; k_onesig := true; k_issuer := true; k_iter := true; k_exact := true; k_lax := true; k_one := true |}.
+Definition no_uniq : knobs := {| k_uri := true; k_uniq := false; k_nodeid := true; k_onesig := true; k_issuer := true; k_iter := true; k_exact := true; k_lax := true; k_one := true |}.
+Definition no_nodeid : knobs := {| k_uri := true; k_uniq := true; k_nodeid := false; k_onesig := true; k_issuer := true; k_iter := true; k_exact := true; k_lax := true; k_one := true |}.
 
 Definition permits_wrapping (K : knobs) (d : tree) : Prop :=
   Ex.names (Ex.run K Ex.cfgA d) = Some (Some ("admin", None))
@@ -1896,14 +1928,14 @@ Proof. split; vm_compute; reflexivity. Qed.
 Lemma necessity_nodeid : permits_wrapping no_nodeid Ex.doc_nodeid.
 Proof. repeat split; vm_compute; reflexivity. Qed.
 
-Definition no_onesig : knobs := {| k_uri := true; k_uniq := true; k_nodeid := true; k_onesig := false; k_issuer := true; k_iter := true; k_exact := true; k_lax := true |}.
+Definition no_onesig : knobs := {| k_uri := true; k_uniq := true; k_nodeid := true; k_onesig := false; k_issuer := true; k_iter := true; k_exact := true; k_lax := true; k_one := true |}.
 Lemma necessity_onesig : permits_wrapping no_onesig Ex.doc_f1.
 Proof. repeat split; vm_compute; reflexivity. Qed.
 
 (* the one-signature test must look at ALL descendants in document order: a genuine, still signed assertion
    nested (in the Advice) AHEAD of the wrapper's own self-referencing ds:Signature child is what xmlsec1 verifies *)
 Definition no_iter : knobs :=
-  {| k_uri := true; k_uniq := true; k_nodeid := true; k_onesig := true; k_issuer := true; k_iter := false; k_exact := true; k_lax := true |}.
+  {| k_uri := true; k_uniq := true; k_nodeid := true; k_onesig := true; k_issuer := true; k_iter := false; k_exact := true; k_lax := true; k_one := true |}.
 Definition doc_nested_first : tree :=
   Ex.response Ex.IDP
     [Node ASSERTION [("ID", "E")] ""
@@ -1916,7 +1948,7 @@ Proof. repeat split; vm_compute; reflexivity. Qed.
 (* the Reference URI must equal "#"+ID exactly: with a case-insensitive comparison the genuine signature
    (URI #A) moved onto an attacker assertion whose ID is "a" passes, and xmlsec1 resolves #A to the genuine A *)
 Definition no_exact : knobs :=
-  {| k_uri := true; k_uniq := true; k_nodeid := true; k_onesig := true; k_issuer := true; k_iter := true; k_exact := false; k_lax := true |}.
+  {| k_uri := true; k_uniq := true; k_nodeid := true; k_onesig := true; k_issuer := true; k_iter := true; k_exact := false; k_lax := true; k_one := true |}.
 Definition doc_case_id : tree :=
   Ex.response Ex.IDP [Ex.assertion "a" Ex.IDP [Ex.sigA] "admin" "admin@evil.example" [Ex.el ADVICE [Ex.genuineA]]].
 Lemma necessity_exact_id : permits_wrapping no_exact doc_case_id.
@@ -2026,15 +2058,15 @@ Proof.
     specialize (G1 [2; 0] Ex.bare_holder eq_refl (or_introl eq_refl)). vm_compute in G1. discriminate.
 Qed.
 
-(* ================================================================== C02-F4: the report mixes two signed assertions *)
+(* ================================================================== C02-F4 (fixed: 6a3bb24f): the report mixed two signed assertions *)
 Lemma not_spec_one_of_b c cv rep : spec_one_b c cv rep = false -> ~ spec_one c cv rep.
 Proof. intros H S. apply spec_one_b_iff in S. congruence. Qed.
 
-(* the code as it is accepts two genuinely signed assertions in an unsigned envelope as soon as the Response also has
+(* the code before 6a3bb24f (knobs_v2) accepted two genuinely signed assertions in an unsigned envelope as soon as the Response also has
    exactly one EncryptedAssertion child (an empty element will do; a real ciphertext too) and reports bob (the last
    assertion's subject) with alice's session (the first one's): every field is signed content (spec holds), but no
    single covered element carries that combination (spec_one fails).  Without the extra child the splice is refused. *)
-Lemma f4_refuted :
+Lemma f4_v2_refuted :
   Ex.mixed Ex.cfgA Ex.doc_mix None = Some (true, false, Some "bob", Some "s-alice")
   /\ Ex.mixed Ex.cfgA Ex.doc_mix_enc (Some Ex.ddoc_mix_enc) = Some (true, false, Some "bob", Some "s-bob")
   /\ (exists rep ds, Ex.run2 Ex.cfgA Ex.doc_mix None = Some (rep, ds)
@@ -2058,6 +2090,13 @@ Proof.
   - intros [H|(a & H)]; [apply H; vm_compute; reflexivity | vm_compute in H; discriminate].
   - vm_compute. reflexivity.
 Qed.
+
+(* the code as it is refuses both witnesses and still accepts the single genuine assertion *)
+Lemma f4_now_rejected :
+  Ex.run2_now Ex.cfgA Ex.doc_mix None = None
+  /\ Ex.run2_now Ex.cfgA Ex.doc_mix_enc (Some Ex.ddoc_mix_enc) = None
+  /\ Ex.names (Ex.run2_now Ex.cfgA Ex.doc_one None) = Some (Some ("alice", None)).
+Proof. repeat split; vm_compute; reflexivity. Qed.
 
 (* the hypotheses of the one-element theorem are satisfiable: the genuine message is accepted, one element covers it *)
 Example single_nonvacuous :
@@ -2166,17 +2205,34 @@ Proof.
            (or_intror (engine_guard_strict E doc ddoc Hs)) Ho Hd H).
 Qed.
 
-(* (round 5) ONE covered element accounts for the whole report - when the Response itself is signed, or exactly one
-   assertion feeds the report (mix_guard; its complement is finding C02-F4) *)
+Lemma knobs_v2_sound : sound_knobs knobs_v2.
+Proof. repeat split. Qed.
+Lemma defence_v2 E doc ddoc : defence E knobs_v2 doc ddoc.
+Proof. left. split; [reflexivity | now left]. Qed.
+
+(* (round 5, after 6a3bb24f) ONE covered element accounts for the whole report: no guard - the code refuses more than
+   one processed assertion unless the Response itself is signed *)
 Lemma single_as_coded :
   forall E dig_ok sig_ok c o doc ddoc rep ds,
-    sig_required c -> oracle_sane o doc ddoc -> dec_sound doc ddoc -> mix_guard doc ddoc ->
+    sig_required c -> oracle_sane o doc ddoc -> dec_sound doc ddoc -> dec_count doc ddoc ->
     accept dig_ok sig_ok E as_coded c o doc ddoc = Some (rep, ds) ->
     spec_one c (cov_of doc ddoc ds) rep.
 Proof.
-  intros E dig_ok sig_ok c o doc ddoc rep ds Hr Ho Hd Hm H.
+  intros E dig_ok sig_ok c o doc ddoc rep ds Hr Ho Hd Hc H.
   exact (accept_single dig_ok sig_ok E as_coded c o doc ddoc rep ds knobs_as_coded Hr (defence_as_coded E doc ddoc)
-           (or_introl eq_refl) (or_introl eq_refl) Ho Hd Hm H).
+           (or_introl eq_refl) (or_introl eq_refl) Ho Hd (or_introl (conj eq_refl Hc)) H).
+Qed.
+
+(* the code before 6a3bb24f: only under mix_guard (the Response is signed, or exactly one assertion feeds the report) *)
+Lemma single_v2 :
+  forall E dig_ok sig_ok c o doc ddoc rep ds,
+    sig_required c -> oracle_sane o doc ddoc -> dec_sound doc ddoc -> mix_guard doc ddoc ->
+    accept dig_ok sig_ok E knobs_v2 c o doc ddoc = Some (rep, ds) ->
+    spec_one c (cov_of doc ddoc ds) rep.
+Proof.
+  intros E dig_ok sig_ok c o doc ddoc rep ds Hr Ho Hd Hm H.
+  exact (accept_single dig_ok sig_ok E knobs_v2 c o doc ddoc rep ds knobs_v2_sound Hr (defence_v2 E doc ddoc)
+           (or_introl eq_refl) (or_introl eq_refl) Ho Hd (or_intror Hm) H).
 Qed.
 
 (* a Response without EncryptedAssertion children: the count test of parse_assertion leaves exactly one assertion *)
@@ -2191,3 +2247,12 @@ Proof.
   exact (accept_single_plain dig_ok sig_ok E as_coded c o doc ddoc rep ds knobs_as_coded Hr (defence_as_coded E doc ddoc)
            (or_introl eq_refl) (or_introl eq_refl) Ho Hd Hn Hf H).
 Qed.
+
+(* the allow-lists and names of the LIVE saml2.xmldsig / saml2.sigver (coq/gen/C02Tables.v, regenerated on every run)
+   are the constants the model uses *)
+Lemma live_constants :
+  live_allowed_transforms = ALLOWED_TRANSFORMS
+  /\ live_allowed_canonicalizations = ALLOWED_CANONICALIZATIONS
+  /\ live_transform_enveloped = TRANSFORM_ENVELOPED
+  /\ live_node_name = "urn:oasis:names:tc:SAML:2.0:assertion:Assertion".
+Proof. repeat split; reflexivity. Qed.
